@@ -1,16 +1,18 @@
 -------------------------------- MODULE Trace --------------------------------
 (* Universal trace specification: dispatches every event to its package.   *)
-EXTENDS TraceDate, TraceRoman
+EXTENDS TraceDate, TraceRoman, TraceUU, TraceSem
 
-TraceInit == TraceBaseInit /\ DateInit /\ RomanInit
+TraceInit == TraceBaseInit /\ DateInit /\ RomanInit /\ UUInit /\ SemInit
 
 TraceNext ==
   \/ /\ l <= Len(Trace)
      /\ LET e == Trace[l] IN
-          \/ IsDateOp(e)  /\ DateStep(e)  /\ UNCHANGED rvars
-          \/ IsRomanOp(e) /\ RomanStep(e) /\ UNCHANGED <<dvars, ctx>>
+          \/ IsDateOp(e)  /\ DateStep(e)  /\ UNCHANGED <<rvars, uvars, svars>>
+          \/ IsRomanOp(e) /\ RomanStep(e) /\ UNCHANGED <<dvars, uvars, svars, ctx>>
+          \/ IsUUOp(e)    /\ UUStep(e)    /\ UNCHANGED <<dvars, rvars, svars, ctx>>
+          \/ IsSemOp(e)   /\ SemStep(e)   /\ UNCHANGED <<dvars, rvars, uvars, ctx>>
      /\ l' = l + 1
-  \/ Finish /\ UNCHANGED <<dvars, rvars>>
+  \/ Finish /\ UNCHANGED <<dvars, rvars, uvars, svars>>
 
-TraceSpec == TraceInit /\ [][TraceNext]_<<tvars, dvars, rvars>>
+TraceSpec == TraceInit /\ [][TraceNext]_<<tvars, dvars, rvars, uvars, svars>>
 =============================================================================
